@@ -38,10 +38,13 @@ pub struct Knobs {
     pub full_gaps: bool,
     /// for single-record clouds: the first data packet carries exactly this many stream bytes (0 = off)
     pub first_packet_bytes: usize,
+    /// XML section directly behind the file header, binary sections behind it (the last section
+    /// then ends the file): 0 = never, 1 = offered as a choice, 2 = always
+    pub xml_first: u8,
 }
 impl Knobs {
-    pub const NONE: Knobs = Knobs { packets: false, cuts: false, non_data_packets: false, gaps: false, order: false, proto_attrs: false, xml_lexical: false, max_packets: 1, base_packets: 1, full_gaps: false, first_packet_bytes: 0 };
-    pub const ALL: Knobs = Knobs { packets: true, cuts: true, non_data_packets: true, gaps: true, order: true, proto_attrs: true, xml_lexical: true, max_packets: 3, base_packets: 1, full_gaps: true, first_packet_bytes: 0 };
+    pub const NONE: Knobs = Knobs { packets: false, cuts: false, non_data_packets: false, gaps: false, order: false, proto_attrs: false, xml_lexical: false, max_packets: 1, base_packets: 1, full_gaps: false, first_packet_bytes: 0, xml_first: 0 };
+    pub const ALL: Knobs = Knobs { packets: true, cuts: true, non_data_packets: true, gaps: true, order: true, proto_attrs: true, xml_lexical: true, max_packets: 3, base_packets: 1, full_gaps: true, first_packet_bytes: 0, xml_first: 1 };
 }
 
 #[derive(Clone, Debug, Default)]
@@ -98,6 +101,10 @@ struct Enc<'a> {
     k: Knobs,
     log: Vec<u8>,
     notes: Vec<String>,
+    /// the section written last is a compressed vector without any packet
+    tail_without_packets: bool,
+    /// number of byte streams of the cloud being written
+    cur_streams: usize,
 }
 
 impl Enc<'_> {
@@ -126,6 +133,7 @@ impl Enc<'_> {
         }
     }
     fn blob(&mut self, b: &mut BlobRef, what: &str) {
+        self.tail_without_packets = false;
         self.gap(what);
         b.offset = self.phys();
         b.length = b.data.len() as u64;
@@ -141,8 +149,22 @@ impl Enc<'_> {
         if !self.k.non_data_packets {
             return (false, 0);
         }
-        match self.ch.choose(&format!("extra-packet-{pos}"), 7) {
+        match self.ch.choose(&format!("extra-packet-{pos}"), 8) {
             0 => (false, 0),
+            7 => {
+                // a data packet in which every byte stream is empty (legal: it completes no point)
+                let n = self.cur_streams;
+                self.notes.push(format!("data packet with {n} empty byte streams {pos}"));
+                let len = (6 + 2 * n + 3) / 4 * 4;
+                self.log.push(1);
+                self.log.push(0);
+                self.log.extend_from_slice(&le16(len - 1));
+                self.log.extend_from_slice(&le16(n));
+                for _ in 6..len {
+                    self.log.push(0);
+                }
+                (false, len)
+            }
             k @ (1 | 5) => {
                 // index packet: 16-byte header + entries of 16 bytes; k = 5: index level 1, two entries
                 let (level, entries) = if k == 1 { (0u8, 1usize) } else { (1u8, 2usize) };
@@ -186,6 +208,8 @@ impl Enc<'_> {
             })
             .collect();
         let total: usize = streams.iter().map(|s| s.len()).sum();
+        self.tail_without_packets = total == 0;
+        self.cur_streams = streams.len();
         let sec_start_log = self.log.len();
         c.file_offset = self.phys();
         // header placeholder
@@ -816,10 +840,23 @@ fn scene_xml(s: &Scene, ch: &mut dyn Choose, k: Knobs, notes: &mut Vec<String>) 
     x.out
 }
 
+/// logical bytes reserved for the XML when it is placed in front of the binary sections (30 pages)
+pub const XML_RESERVE: usize = 30 * 1020;
+
 /// Encode a scene. Offsets inside the scene (cloud file offsets, blob descriptors) are filled in.
 pub fn encode(scene: &Scene, ch: &mut dyn Choose, k: Knobs) -> Encoded {
     let mut s = scene.clone();
-    let mut e = Enc { ch, k, log: vec![0u8; 48], notes: Vec::new() };
+    let mut e = Enc { ch, k, log: vec![0u8; 48], notes: Vec::new(), tail_without_packets: false, cur_streams: 0 };
+    // XML first: a fixed area behind the header is reserved for the document (the rest of it stays
+    // a zero gap); if the document turns out larger, it is appended as usual
+    let xml_first = match k.xml_first {
+        0 => false,
+        1 => e.ch.choose("xml-before-sections", 2) == 1,
+        _ => true,
+    };
+    if xml_first {
+        e.log.resize(48 + XML_RESERVE, 0);
+    }
     // section order: clouds first then image blobs (canonical) or images first
     let images_first = e.k.order && (!s.images.is_empty() && !s.clouds.is_empty()) && e.ch.choose("images-before-clouds", 2) == 1;
     let clouds_reversed = e.k.order && s.clouds.len() > 1 && e.ch.choose("clouds-reversed", 2) == 1;
@@ -858,12 +895,25 @@ pub fn encode(scene: &Scene, ch: &mut dyn Choose, k: Knobs) -> Encoded {
     if !images_first {
         do_images(&mut e, &mut s);
     }
-    e.gap("xml");
+    if !xml_first {
+        e.gap("xml");
+    } else if e.tail_without_packets && e.log.len() % page::PAYLOAD == 0 {
+        // a cloud without packets whose data offset would be the very end of the file: whether an
+        // offset equal to the file length is well-formed is debatable, so four padding bytes follow
+        e.log.extend_from_slice(&[0u8; 4]);
+    }
     let mut notes = std::mem::take(&mut e.notes);
     let Enc { ch, k, mut log, .. } = e;
     let xml = scene_xml(&s, ch, k, &mut notes);
-    let xml_off = page::log_to_phys(log.len() as u64);
-    log.extend_from_slice(xml.as_bytes());
+    let xml_off;
+    if xml_first && xml.len() <= XML_RESERVE {
+        notes.push("XML section directly behind the file header, binary sections behind it".into());
+        xml_off = page::log_to_phys(48);
+        log[48..48 + xml.len()].copy_from_slice(xml.as_bytes());
+    } else {
+        xml_off = page::log_to_phys(log.len() as u64);
+        log.extend_from_slice(xml.as_bytes());
+    }
     let pages = (log.len() + page::PAYLOAD - 1) / page::PAYLOAD;
     let phys_len = (pages * page::PAGE) as u64;
     log[0..8].copy_from_slice(b"ASTM-E57");
